@@ -6,7 +6,7 @@
 From Grex Require Import Base.Str Model.Config Model.Cluster Model.Dfa Model.Expr Model.Pipeline.
 From Grex Require Import Proofs.Lang Proofs.TrieLang Proofs.QuotientLang Proofs.MinimizeLang
   Proofs.HopcroftCoarsest Proofs.PropsGlue.
-From Grex Require Proofs.ElimLang.
+From Grex Require Proofs.ElimLang Proofs.HopcroftInv Proofs.MergeSound Proofs.HopcroftSym Proofs.HopcroftAny.
 From Grex Require Import Model.Print Engine.Syntax Engine.Parse Engine.Sem Engine.ExecCi.
 From Grex Require Import Proofs.FoldTables Proofs.EngineDen Proofs.PrintParseNum Proofs.PrintParseDefs
   Proofs.PrintParseXTok Proofs.PrintParse Proofs.PrintParseX Proofs.ExecCiSound Proofs.ScalarHay
@@ -81,6 +81,65 @@ Proof.
   - exact (quotient_lang_sub lit cls d d' p H Hr).
   - intros Hw Hn. exact (quotient_lang_nonempty lit cls d d' p Hw Hn H Hr).
 Qed.
+
+(* the one-sided checker for quotients of automata whose edge labels are RANGES (tries with
+   merged edges): MergeSound.qcoverb d p accepts when finality is uniform inside every block
+   of p and every symbol (characters, count) of every edge of d is covered by an edge that
+   recreate_graph copies from the representative (smallest member) of the block of the source,
+   into the block of the target.  Then the quotient accepts every non-empty string of d; no
+   hypothesis on d (no trie shape, no determinism, no stability).  The empty string is kept
+   as well when the known "final root without incoming edge" defect does not bite. *)
+Theorem C16_quotient_cover_sound : forall (lit cls : cp -> cp -> Prop) d d' p,
+  MergeSound.qcoverb d p = true -> recreate_graph d p = Some d' ->
+  forall u, u <> [] -> L_dfa lit cls d u -> L_dfa lit cls d' u.
+Proof. exact MergeSound.qcover_lang_nonempty. Qed.
+
+Theorem C16_quotient_cover_sound_eps : forall (lit cls : cp -> cp -> Prop) d d' p,
+  wf_dfa d -> MergeSound.qcoverb d p = true -> recreate_graph d p = Some d' ->
+  eps_safeb d p = true ->
+  lsub (L_dfa lit cls d) (L_dfa lit cls d').
+Proof. exact MergeSound.qcover_lang_sub_b. Qed.
+
+(* the acyclicity test used next to it (Expression::from is proved on acyclic automata) *)
+Theorem C16_acyclicb_sound : forall d, MergeSound.acyclicb d = true -> ElimLang.acyclic d.
+Proof. exact MergeSound.acyclicb_spec. Qed.
+
+(* Hopcroft as implemented, on tries WITH merged edges, when no state has two out-edges with
+   the same characters and overlapping ranges to different states (HopcroftSym.sym_detb): the
+   partition is stable for every alphabet symbol c, where a c-edge is an edge whose label
+   contains c *)
+Theorem C16_hopcroft_stable_symdet : forall (cs : list cluster) t p,
+  Forall wf_cluster cs -> Forall (Forall uniform_g) cs ->
+  trie_of cs = Some t -> HopcroftSym.sym_detb t = true -> partition_of t = Some p ->
+  forall c, In c (d_alphabet t) ->
+  forall s s0 s', HopcroftInv.same p s s0 -> HopcroftInv.cedge (d_edges t) c s s' ->
+  exists t', HopcroftInv.cedge (d_edges t) c s0 t' /\ HopcroftInv.same p s' t'.
+Proof.
+  intros cs t p Hw Hu Ht Hd Hp.
+  exact (HopcroftSym.partition_stable_cedge_sym t p
+           (HopcroftSym.trie_sym_of_trie cs t Hw Hu Ht Hd) Hp).
+Qed.
+
+(* ... and with no hypothesis on determinism at all (both halves of a split block are pushed
+   on the work-list of minimize) *)
+Theorem C16_hopcroft_stable : forall (cs : list cluster) t p,
+  Forall wf_cluster cs -> trie_of cs = Some t -> partition_of t = Some p ->
+  forall c, In c (d_alphabet t) ->
+  forall s s0 s', HopcroftInv.same p s s0 -> HopcroftInv.cedge (d_edges t) c s s' ->
+  exists t', HopcroftInv.cedge (d_edges t) c s0 t' /\ HopcroftInv.same p s' t'.
+Proof. exact HopcroftAny.trie_sym_stable. Qed.
+
+(* minimisation of ANY trie of uniform clusters, merged edges or not: the result is well
+   formed, acyclic and accepts every non-empty string of the trie (nothing is claimed about
+   the converse inclusion: see C16_min_lang for no_merge tries) *)
+Theorem C16_min_sound_with_merge : forall (lit cls : cp -> cp -> Prop) (cs : list cluster) t,
+  Forall wf_cluster cs -> Forall (Forall uniform_g) cs -> trie_of cs = Some t ->
+  exists d' p,
+    partition_of t = Some p /\ recreate_graph t p = Some d' /\ minimize t = Some d'
+    /\ wf_dfa d' /\ ElimLang.acyclic d'
+    /\ (forall u, u <> [] -> L_dfa lit cls t u -> L_dfa lit cls d' u)
+    /\ (eps_safe t p -> lsub (L_dfa lit cls t) (L_dfa lit cls d')).
+Proof. exact HopcroftAny.minimize_trie_sound. Qed.
 
 (* the verified minimality checker: no two states with the same right language *)
 Theorem C16_min_checkb : forall d, wf_dfa d -> min_checkb d = true ->
@@ -191,6 +250,12 @@ Print Assumptions C16_min_minimal.
 Print Assumptions C16_elim.
 Print Assumptions C16_elim_gen.
 Print Assumptions C16_checker_sound.
+Print Assumptions C16_quotient_cover_sound.
+Print Assumptions C16_quotient_cover_sound_eps.
+Print Assumptions C16_acyclicb_sound.
+Print Assumptions C16_hopcroft_stable_symdet.
+Print Assumptions C16_hopcroft_stable.
+Print Assumptions C16_min_sound_with_merge.
 Print Assumptions C16_min_checkb.
 Print Assumptions C16_print.
 Print Assumptions C16_print_verbose.
